@@ -368,6 +368,43 @@ pub fn run(tier: Tier) -> i32 {
     let st = run_space(deltas.len(), |i| check_delta(deltas[i].0, deltas[i].1, deltas[i].2));
     rep.sample(json!({"leg": "delta", "shape": deltas[3].0, "form": deltas[3].2}));
     rep.absorb("deltas", st);
+    // shorthand rxy on every shape; offsets on shapes whose position is defaulted; resizing a rect whose extent is
+    // given by start and end
+    let eq_pairs: Vec<(&str, String, String)> = vec![
+        ("rxy-rect", "<rect x=\"1\" y=\"2\" width=\"20\" height=\"10\" rxy=\"3 4\"/>".into(), "<rect x=\"1\" y=\"2\" width=\"20\" height=\"10\" rx=\"3\" ry=\"4\"/>".into()),
+        ("rxy-rect-one-value", "<rect x=\"1\" y=\"2\" width=\"20\" height=\"10\" rxy=\"3\"/>".into(), "<rect x=\"1\" y=\"2\" width=\"20\" height=\"10\" rx=\"3\" ry=\"3\"/>".into()),
+        ("rxy-circle", "<circle cx=\"10\" cy=\"-4\" rxy=\"5\"/>".into(), "<circle cx=\"10\" cy=\"-4\" rx=\"5\" ry=\"5\"/>".into()),
+        ("rxy-circle-vs-r", "<circle cxy=\"10 -4\" rxy=\"5\"/>".into(), "<circle cx=\"10\" cy=\"-4\" r=\"5\"/>".into()),
+        ("rxy-ellipse", "<ellipse cx=\"10\" cy=\"-4\" rxy=\"5, 2.5\"/>".into(), "<ellipse cx=\"10\" cy=\"-4\" rx=\"5\" ry=\"2.5\"/>".into()),
+        ("default-position-rect", "<rect wh=\"4 2\" dxy=\"2 3\"/>".into(), "<rect x=\"2\" y=\"3\" width=\"4\" height=\"2\"/>".into()),
+        ("default-position-circle", "<circle r=\"5\" dxy=\"2\"/>".into(), "<circle cx=\"2\" cy=\"2\" r=\"5\"/>".into()),
+        ("default-position-ellipse", "<ellipse rxy=\"5 3\" dxy=\"2\"/>".into(), "<ellipse cx=\"2\" cy=\"2\" rx=\"5\" ry=\"3\"/>".into()),
+        ("default-position-ellipse-one-axis", "<ellipse cx=\"5\" rxy=\"5 3\" dy=\"1\"/>".into(), "<ellipse cx=\"5\" cy=\"1\" rx=\"5\" ry=\"3\"/>".into()),
+        ("resize-rect-start-end", "<rect x=\"1\" x2=\"11\" y=\"0\" y2=\"10\" dwh=\"2\"/>".into(), "<rect x=\"1\" y=\"0\" width=\"12\" height=\"12\"/>".into()),
+        ("resize-rect-centre-length", "<rect cx=\"6\" width=\"10\" cy=\"5\" height=\"10\" dwh=\"2\"/>".into(), "<rect cx=\"6\" width=\"12\" cy=\"5\" height=\"12\"/>".into()),
+    ];
+    let st = run_space(eq_pairs.len(), |i| {
+        let (name, a, b) = &eq_pairs[i];
+        let (oa, ob) = (run_str(a, &Cfg::plain()), run_str(b, &Cfg::plain()));
+        let shape = a[1..].split(' ').next().unwrap_or("rect");
+        let attrs = |o: &Outcome| match o {
+            Outcome::Ok(x) => element_attrs(x, shape).map(|mut v| {
+                v.sort();
+                v
+            }),
+            other => Err(other.brief()),
+        };
+        let (ra, rb) = (attrs(&oa), attrs(&ob));
+        let ok = ra.is_ok() && ra == rb;
+        CaseResult {
+            case_hash: hash64(a),
+            nontrivial: ok,
+            outcome_hash: hash64(&format!("{oa:?}")),
+            executions: 2,
+            violation: if ok { None } else { Some(Violation { clause: "equivalent-spellings-differ".into(), signature: format!("C11/equivalent/{name}"), case: json!({"leg": "equivalent", "input": a, "other": b}), detail: format!("{a}\n -> {ra:?}\n{b}\n -> {rb:?}") }) },
+        }
+    });
+    rep.absorb("equivalent", st);
     rep.finish()
 }
 
